@@ -294,13 +294,16 @@ func Decode[T any](c Cursor, obj Object, decode func(Cursor, Object, bool) (T, e
 			break
 		}
 		key := extractorKey{ref: ref, tp: tp}
+		verifYield("Decode:get")
 		if v, ok := x.cacheGet(key); ok {
 			// a cached nil interface result (T is an interface type and the
 			// decoder returned nil) is an untyped nil here; the comma-ok form
 			// yields the zero value instead of panicking on the assertion
 			r, _ := v.(T)
+			verifYield("Decode:hit")
 			return r, nil
 		}
+		verifYield("Decode:miss")
 
 		// follow the reference, rejecting cycles and over-deep chains
 		var err error
@@ -355,14 +358,18 @@ func DecodeExclusive[T any](c Cursor, obj Object, decode func(Cursor, Object, bo
 	}
 	key := extractorKey{ref: ref, tp: reflect.TypeFor[T]()}
 
+	verifYield("DecodeExclusive:lock")
 	x.mu.Lock()
 	if v, ok := x.cache[key]; ok {
 		x.mu.Unlock()
+		verifYield("DecodeExclusive:hit")
 		return v.(T), nil
 	}
 	if p, ok := x.wip[key]; ok {
 		x.mu.Unlock()
+		verifYield("DecodeExclusive:wait")
 		<-p.done
+		verifYield("DecodeExclusive:woken")
 		if p.err != nil {
 			return zero, p.err
 		}
@@ -371,14 +378,18 @@ func DecodeExclusive[T any](c Cursor, obj Object, decode func(Cursor, Object, bo
 	p := &pending{done: make(chan struct{})}
 	x.wip[key] = p
 	x.mu.Unlock()
+	verifYield("DecodeExclusive:owner")
 
 	res, err := Decode(c, obj, decode)
 
+	verifYield("DecodeExclusive:relock")
 	x.mu.Lock()
 	p.val, p.err = res, err
 	delete(x.wip, key)
 	x.mu.Unlock()
+	verifYield("DecodeExclusive:unlocked")
 	close(p.done)
+	verifYield("DecodeExclusive:closed")
 
 	return res, err
 }
